@@ -58,13 +58,13 @@ func TestVerifC17Degraded(t *testing.T) {
 				got, err := ask(k, q)
 				r.Eval(1)
 				if err != nil {
-					r.Fail("degraded:all-up:error:"+q.kind, id, fmt.Sprintf("%s via node %d: %v", q.pql, k, err), wit)
+					r.FailOrUndecided("degraded:all-up:error:"+q.kind, id, fmt.Sprintf("%s via node %d: %v", q.pql, k, err), wit)
 					return
 				}
 				if k == 0 {
 					ref[q.kind] = got
 				} else if got != ref[q.kind] {
-					r.Fail("degraded:all-up:coordinator-dependent:"+q.kind, id, fmt.Sprintf("%s: node 0 answers %q, node %d answers %q", q.pql, ref[q.kind], k, got), wit)
+					r.FailOrUndecided("degraded:all-up:coordinator-dependent:"+q.kind, id, fmt.Sprintf("%s: node 0 answers %q, node %d answers %q", q.pql, ref[q.kind], k, got), wit)
 					return
 				}
 			}
@@ -108,11 +108,11 @@ func TestVerifC17Degraded(t *testing.T) {
 				got, err := ask(k, q)
 				r.Eval(1)
 				if err != nil {
-					r.Fail("degraded:error:"+q.kind, id, fmt.Sprintf("with node %d stopped, %s via node %d: %v", victim, q.pql, k, err), wit)
+					r.FailOrUndecided("degraded:error:"+q.kind, id, fmt.Sprintf("with node %d stopped, %s via node %d: %v", victim, q.pql, k, err), wit)
 					return
 				}
 				if got != ref[q.kind] {
-					r.Fail("degraded:answer-changed:"+q.kind, id, fmt.Sprintf("with node %d stopped, %s via node %d answers %q; with all nodes up: %q", victim, q.pql, k, got, ref[q.kind]), wit)
+					r.FailOrUndecided("degraded:answer-changed:"+q.kind, id, fmt.Sprintf("with node %d stopped, %s via node %d answers %q; with all nodes up: %q", victim, q.pql, k, got, ref[q.kind]), wit)
 					return
 				}
 			}
